@@ -51,6 +51,10 @@ Definition insert (h : hof) (i : indiv) : hof :=
   mkH (cap h) (insert_at idx (ik1 i) (keys h)) (insert_at idx e (items h))
       (S (next_id h)) (S (next_arr h)) (err h).
 
+(* the public method: an individual whose key is NaN is ignored (fix of finding F12a).  update / the Pareto update call insert
+   only after their own NaN test, so they use [insert] directly (Proofs/HofProofs.v: insert_pub_of_should_add) *)
+Definition insert_pub (h : hof) (i : indiv) : hof := if kisnan (ik1 i) then h else insert h i.
+
 (* HallOfFame.remove(index) with Python index semantics; IndexError -> err *)
 Definition py_index (len : nat) (i : Z) : option nat :=
   if (0 <=? i) && (i <? Z.of_nat len) then Some (Z.to_nat i)
@@ -89,7 +93,8 @@ Definition last_key (h : hof) : key := last (keys h) None.
 Definition should_add (h : hof) (i : indiv) : bool :=
   if kisnan (ik1 i) then false
   else match items h with
-       | [] => true                     (* "if not self" uses __len__ = len(_items) *)
+       | [] => match cap h with Some c => Nat.ltb 0 c | None => true end
+                                        (* "if not self": admitted unless the capacity is 0 (fix of finding F12b) *)
        | _ =>
          if kle (ik1 i) (last_key h)
             || (match cap h with Some c => Nat.ltb (length (items h)) c | None => false end)
@@ -146,7 +151,7 @@ Definition step (pareto : bool) (h : hof) (o : op) : hof :=
   if err h then h else
   match o with
   | OUpdate pop => if pareto then pf_update h pop else update h pop
-  | OInsert i => insert h i
+  | OInsert i => insert_pub h i
   | ORemove idx => remove h idx
   | OClear => clear h
   end.
